@@ -1,4 +1,20 @@
 //! C05 — Client transactions retransmit and time out on the RFC 3261 timer schedule
+//!
+//! Sub-checks `grid` / `random` (fn `check`): one client transaction (INVITE | OPTIONS) on a mock datagram
+//! transport (reliable | unreliable) under a paused clock, scripted responses (arrival instant, status).
+//! Generated dimensions besides the response history:
+//!   * how the request's Via is formed: the transport's own sent-by, or `TargetTransportInfo::via_host_port`
+//!     (other address, host name, IPv6 reference, own host with another / without port, mixed-case name);
+//!   * how a response reaches the endpoint: top Via echoed verbatim or with `;received=` appended (RFC 3261
+//!     18.2.1), packet source = the request's destination or another address. A response belongs to the
+//!     transaction by top-Via branch + CSeq method (RFC 3261 17.1.3) in all of these shapes, so the oracle is the
+//!     same for all of them: "a response has arrived".
+//! Oracle (reference schedule `refmodel::ref_tsx`): transmission instants / exactly-once on reliable transports,
+//! byte-identical retransmissions to the same destination, the sequence and instants of `receive()` results
+//! (responses, timeout at 64*T1, INVITE completion), T4 absorber of the non-INVITE transaction (transaction-table
+//! probes). Not asserted: non-INVITE retransmission / timeout while Proceeding, 1xx/3xx-6xx handed out in Accepted,
+//! the sent-by text on the wire (C07 compares the ACK's Via with the INVITE's).
+//! Sub-checks `pacing_grid` / `pacing` (fn `pacing_check`): see the comment block further down.
 
 use crate::engine::*;
 use crate::refmodel::ref_tsx::{self, T1 as T1X, T4, TIMEOUT};
@@ -18,6 +34,20 @@ pub struct Resp {
     /// arrival time, ms after the first send
     pub t_ms: u64,
     pub code: u16,
+    /// the peer added `;received=<address it saw>` to the top Via it echoes (RFC 3261 18.2.1: every server does
+    /// so when the sent-by host differs from the packet source, e.g. behind a NAT or with a host name in Via)
+    #[serde(default)]
+    pub received: bool,
+    /// the response datagram comes from another address/port than the one the request was sent to (multi-homed
+    /// or NATed peer); responses are matched by top-Via branch + CSeq method only (RFC 3261 17.1.3)
+    #[serde(default)]
+    pub other_source: bool,
+}
+
+impl Resp {
+    pub fn plain(t_ms: u64, code: u16) -> Self {
+        Resp { t_ms, code, received: false, other_source: false }
+    }
 }
 
 #[derive(Serialize, Deserialize, Clone, Debug, Hash)]
@@ -27,7 +57,31 @@ pub struct Case {
     pub responses: Vec<Resp>,
     /// seed for tokio's select!/scheduler randomness
     pub rng: u8,
+    /// `TargetTransportInfo::via_host_port`: the sent-by the application wants in the Via of this request instead
+    /// of the transport's own address (public address of a NAT, host name, socket bound to 0.0.0.0)
+    #[serde(default)]
+    pub via_host_port: Option<String>,
 }
+
+/// sent-by overrides: another address, a host name, an IPv6 reference, the transport's own host with another
+/// port, the transport's own host without a port
+pub const VIA_OVERRIDES: &[&str] = &[
+    "198.51.100.7:5099",
+    "nat.example.com",
+    "[2001:db8::1]:5060",
+    "10.0.0.1:5070",
+    "10.0.0.1",
+    "PBX.Example.COM:5060",
+];
+
+pub fn host_port_of(s: &str) -> Option<sip_types::host::HostPort> {
+    // through a URI: the public way to obtain a HostPort from text
+    let uri: SipUri = format!("sip:{s}").parse().ok()?;
+    Some(uri.host_port)
+}
+
+/// where a response flagged `other_source` comes from
+pub const OTHER_SOURCE: &str = "192.0.2.200:40123";
 
 #[derive(Clone, Debug, PartialEq)]
 pub enum Res {
@@ -42,6 +96,19 @@ pub struct Observed {
     pub results: Vec<(u64, Res)>,
     pub counts: Vec<(u64, usize)>,
     pub first_request: Option<WireMsg>,
+    /// (virtual time, world send-call ordinal, destination) of every `Transport::send` the fault plan failed
+    pub failed_sends: Vec<(u64, usize, SocketAddr)>,
+}
+
+/// per scripted response: how it is delivered / what the transport does while it is handled
+#[derive(Clone, Debug, Default)]
+pub struct Delivery {
+    /// packet source (default: the address the request was sent to)
+    pub source: Option<SocketAddr>,
+    /// the next `Transport::send` call made while this response is being handled fails with an io::Error
+    /// (transient fault, e.g. ECONNREFUSED after an ICMP port-unreachable); if handling the response makes no
+    /// send call the fault is withdrawn again, it never hits a later, unrelated send
+    pub fail_send: bool,
 }
 
 const CODES: &[u16] = &[100, 180, 183, 200, 202, 302, 404, 486, 503, 603];
@@ -77,14 +144,22 @@ pub fn strategy() -> BoxedStrategy<Case> {
     (
         any::<bool>(),
         prop_oneof![3 => Just(false), 1 => Just(true)],
-        prop::collection::vec((any::<u16>(), any::<u16>(), 0u64..40_000, any::<bool>()), 0..5),
+        prop::collection::vec(
+            (
+                (any::<u16>(), any::<u16>(), 0u64..40_000, any::<bool>()),
+                prop_oneof![3 => Just(false), 1 => Just(true)],
+                prop_oneof![4 => Just(false), 1 => Just(true)],
+            ),
+            0..5,
+        ),
         any::<u8>(),
+        prop_oneof![3 => Just(None), 2 => prop::sample::select(VIA_OVERRIDES.to_vec()).prop_map(|s| Some(s.to_string()))],
     )
-        .prop_map(|(invite, reliable, raw, rng)| {
+        .prop_map(|(invite, reliable, raw, rng, via_host_port)| {
             let grid = first_time_grid(invite);
             let mut responses = vec![];
             let mut t = 0u64;
-            for (i, (tsel, csel, rnd, use_rnd)) in raw.into_iter().enumerate() {
+            for (i, ((tsel, csel, rnd, use_rnd), received, other_source)) in raw.into_iter().enumerate() {
                 if i == 0 {
                     t = if use_rnd { rnd } else { grid[pick_idx(tsel, grid.len())] };
                 } else {
@@ -98,6 +173,8 @@ pub fn strategy() -> BoxedStrategy<Case> {
                 responses.push(Resp {
                     t_ms: t,
                     code: CODES[pick_idx(csel, CODES.len())],
+                    received,
+                    other_source,
                 });
             }
             Case {
@@ -105,45 +182,49 @@ pub fn strategy() -> BoxedStrategy<Case> {
                 reliable,
                 responses,
                 rng,
+                via_host_port,
             }
         })
         .boxed()
 }
 
-/// the finite grid: kind × reliability × first response time × class, no tail
+/// the finite grid: kind × reliability × Via sent-by (transport's own / overridden) × first response time × class;
+/// thorough adds one follow-up response (own Via only)
 pub fn grid_cases(tier: Tier) -> Vec<Case> {
     let mut out = vec![];
     for invite in [false, true] {
         for reliable in [false, true] {
-            out.push(Case {
-                invite,
-                reliable,
-                responses: vec![],
-                rng: 0,
-            });
-            for t in first_time_grid(invite) {
-                for &code in &[100u16, 180, 200, 404] {
-                    out.push(Case {
-                        invite,
-                        reliable,
-                        responses: vec![Resp { t_ms: t, code }],
-                        rng: 1,
-                    });
-                    if tier == Tier::Thorough {
-                        for &off in TAIL_OFFSETS {
-                            for &code2 in &[180u16, 200, 404] {
-                                out.push(Case {
-                                    invite,
-                                    reliable,
-                                    responses: vec![
-                                        Resp { t_ms: t, code },
-                                        Resp {
-                                            t_ms: avoid_edges(invite, t + off),
-                                            code: code2,
-                                        },
-                                    ],
-                                    rng: 2,
-                                });
+            for via in [None, Some(VIA_OVERRIDES[0]), Some(VIA_OVERRIDES[1])] {
+                let via_host_port = via.map(str::to_string);
+                out.push(Case {
+                    invite,
+                    reliable,
+                    responses: vec![],
+                    rng: 0,
+                    via_host_port: via_host_port.clone(),
+                });
+                for t in first_time_grid(invite) {
+                    for &code in &[100u16, 180, 200, 404] {
+                        // with an overridden sent-by a real peer adds received= (the host differs from the source)
+                        let first = Resp { t_ms: t, code, received: via.is_some(), other_source: false };
+                        out.push(Case {
+                            invite,
+                            reliable,
+                            responses: vec![first.clone()],
+                            rng: 1,
+                            via_host_port: via_host_port.clone(),
+                        });
+                        if tier == Tier::Thorough && via.is_none() {
+                            for &off in TAIL_OFFSETS {
+                                for &code2 in &[180u16, 200, 404] {
+                                    out.push(Case {
+                                        invite,
+                                        reliable,
+                                        responses: vec![first.clone(), Resp::plain(avoid_edges(invite, t + off), code2)],
+                                        rng: 2,
+                                        via_host_port: None,
+                                    });
+                                }
                             }
                         }
                     }
@@ -179,6 +260,22 @@ pub fn run_client(
     reliable: bool,
     request: Request,
     responses: Vec<(u64, Box<dyn Fn(&WireMsg) -> Vec<u8> + Send>)>,
+    probes: Vec<u64>,
+    horizon: u64,
+    rng: u64,
+    via_host_port: Option<sip_types::host::HostPort>,
+) -> Observed {
+    run_client_ex(invite, reliable, request, responses, vec![], probes, horizon, rng, via_host_port)
+}
+
+/// `run_client` plus a per-response delivery description (`delivery[i]` belongs to `responses[i]`; missing
+/// entries = default delivery: from the request's destination, no transport fault).
+pub fn run_client_ex(
+    invite: bool,
+    reliable: bool,
+    request: Request,
+    responses: Vec<(u64, Box<dyn Fn(&WireMsg) -> Vec<u8> + Send>)>,
+    delivery: Vec<Delivery>,
     probes: Vec<u64>,
     horizon: u64,
     rng: u64,
@@ -276,11 +373,27 @@ pub fn run_client(
             clock.until(t).await;
             match ev {
                 Ev::Resp(i) => {
+                    let how = delivery.get(i).cloned().unwrap_or_default();
+                    // fault plan: the very next send call of the world fails
+                    let planned = if how.fail_send {
+                        let n = log.faults.lock().calls;
+                        log.fail_calls([n]);
+                        Some(n)
+                    } else {
+                        None
+                    };
                     if let Some(req) = &first_request {
                         let bytes = (responses[i].1)(req);
-                        inject(&endpoint, &tp, peer, &bytes);
+                        inject(&endpoint, &tp, how.source.unwrap_or(peer), &bytes);
                     }
                     settle().await;
+                    if let Some(n) = planned {
+                        // nothing was sent while the response was handled: withdraw the fault
+                        let mut f = log.faults.lock();
+                        if f.calls == n {
+                            f.fail_calls.remove(&n);
+                        }
+                    }
                 }
                 Ev::Probe => {
                     settle().await;
@@ -307,12 +420,30 @@ pub fn run_client(
             results,
             counts,
             first_request,
+            failed_sends: log.failed_sends(),
         }
     })
 }
 
 fn is_final(code: u16) -> bool {
     code >= 200
+}
+
+/// what an RFC 3261 18.2.1 server does to the top Via before echoing it: append `;received=<packet source>`
+pub fn add_received(response: Vec<u8>) -> Vec<u8> {
+    let text = String::from_utf8(response).expect("ascii");
+    let mut out = String::with_capacity(text.len() + 32);
+    let mut done = false;
+    for line in text.split_inclusive("\r\n") {
+        if !done && line.to_ascii_lowercase().starts_with("via:") {
+            done = true;
+            out.push_str(line.trim_end());
+            out.push_str(";received=203.0.113.77\r\n");
+        } else {
+            out.push_str(line);
+        }
+    }
+    out.into_bytes()
 }
 
 pub fn check(case: &Case, out: &mut CaseOut) {
@@ -426,27 +557,42 @@ pub fn check(case: &Case, out: &mut CaseOut) {
         .enumerate()
         .map(|(i, r)| {
             let code = r.code;
+            let received = r.received;
             let f: Box<dyn Fn(&WireMsg) -> Vec<u8> + Send> = Box::new(move |req: &WireMsg| {
-                response_text(
+                let bytes = response_text(
                     req,
                     code,
                     if code > 100 { Some("peertag") } else { None },
                     &[format!("X-Seq: m{i}"), "Contact: <sip:bob@192.0.2.1>".to_string()],
-                )
+                );
+                if received {
+                    add_received(bytes)
+                } else {
+                    bytes
+                }
             });
             (r.t_ms, f)
         })
         .collect();
+    let delivery: Vec<Delivery> = case
+        .responses
+        .iter()
+        .map(|r| Delivery {
+            source: if r.other_source { Some(OTHER_SOURCE.parse().unwrap()) } else { None },
+            fail_send: false,
+        })
+        .collect();
 
-    let obs = run_client(
+    let obs = run_client_ex(
         invite,
         case.reliable,
         base_request(invite),
         responses,
+        delivery,
         probes.clone(),
         horizon,
         case.rng as u64,
-        None,
+        case.via_host_port.as_deref().and_then(host_port_of),
     );
 
     // ---- classes / non-triviality ----
@@ -470,6 +616,22 @@ pub fn check(case: &Case, out: &mut CaseOut) {
     }
     if saw_provisional_only {
         out.class("provisional-only");
+    }
+    if let Some(v) = &case.via_host_port {
+        out.class("Via sent-by overridden (TargetTransportInfo::via_host_port)");
+        // harness sanity, not an oracle: the override must be a usable host[:port]
+        if host_port_of(v).is_none() {
+            out.fail("c05.harness/via-host-port", format!("generator produced an unusable sent-by {v:?}"));
+        }
+        if r0.is_some() {
+            out.class("Via sent-by overridden and a response arrives before 64*T1");
+        }
+    }
+    if case.responses.iter().any(|r| r.received) {
+        out.class("response whose top Via carries received=");
+    }
+    if case.responses.iter().any(|r| r.other_source) {
+        out.class("response from another source address than the request's destination");
     }
     if obs.sends.len() > 1 || near_edge || dup_final {
         out.nontrivial(case);
@@ -661,8 +823,10 @@ pub fn check(case: &Case, out: &mut CaseOut) {
 //
 // The transaction objects are poll-driven: the application calls `receive()` when it gets round to it and a
 // transport `send` takes time. This sub-check varies (a) how long a `send` stays pending after the bytes went
-// out, (b) when the application first calls `receive()`, (c) how long it thinks after every result before it
-// calls `receive()` again. Responses arrive on the wire clock regardless (also while a send is pending and
+// out, (b) when the application first calls `receive()` — at once, between retransmission instants, or only
+// after 64*T1 have passed (then no retransmission was ever due from the caller's side, but whatever arrived in
+// time is queued and still has to come out), (c) how long it thinks after every result before it calls
+// `receive()` again; plus the Via / delivery shapes of the main sub-check. Responses arrive on the wire clock regardless (also while a send is pending and
 // while the application is busy). What is asserted is what the statement fixes independently of pacing:
 //   * the first transmission happens at once; a retransmission is never sent sooner after the previous
 //     transmission than the RFC interval for its ordinal (T1, 2*T1, 4*T1 ... / capped at T2 for non-INVITE):
@@ -673,6 +837,8 @@ pub fn check(case: &Case, out: &mut CaseOut) {
 //     to the caller, in arrival order, as soon as the caller asks (never before it arrived); the 2xx window
 //     of an INVITE counts from the first 2xx: every 2xx that ARRIVED within 64*T1 of the first one's arrival
 //     must come out even if the caller asks late, completion is reported afterwards and not before.
+// A first response that arrives after 64*T1 but before the caller's first `receive()`: transmissions are still
+// checked, the results are not (timeout or late response: the statement fixes neither).
 // Not asserted here: the exact instants of delayed retransmissions (they depend on when the caller polls);
 // what happens to responses arriving between "64*T1 after the first 2xx arrived" and "64*T1 after the caller
 // took it"; non-INVITE Proceeding timeout.
@@ -689,10 +855,15 @@ pub struct PCase {
     pub thinks: Vec<u64>,
     pub responses: Vec<Resp>,
     pub rng: u8,
+    /// as in `Case`
+    #[serde(default)]
+    pub via_host_port: Option<String>,
 }
 
 const SEND_DELAYS: &[u64] = &[0, 0, 5, 50, 400];
-const FIRST_POLLS: &[u64] = &[0, 0, 1, 300, 700, 2_000, 10_000, 20_000, 29_000];
+/// the application may also get round to its first `receive()` only after 64*T1 have passed (a busy event
+/// loop, a caller that first awaits something else): whatever arrived in time is queued and must come out
+const FIRST_POLLS: &[u64] = &[0, 0, 1, 300, 700, 2_000, 10_000, 20_000, 29_000, TIMEOUT + 1, 33_000, 50_000];
 const THINKS: &[u64] = &[0, 0, 10, 600, 5_000, 33_000];
 
 fn pacing_strategy() -> BoxedStrategy<PCase> {
@@ -700,21 +871,33 @@ fn pacing_strategy() -> BoxedStrategy<PCase> {
         any::<bool>(),
         prop_oneof![4 => Just(false), 1 => Just(true)],
         any::<u16>(),
-        (any::<u16>(), 0u64..29_000, any::<bool>()),
+        (any::<u16>(), prop_oneof![3 => 0u64..29_000, 1 => (TIMEOUT + 500)..80_000], any::<bool>()),
         prop::collection::vec(any::<u16>(), 0..5),
-        prop::collection::vec((any::<u16>(), any::<u16>(), 0u64..40_000, any::<bool>()), 0..5),
+        prop::collection::vec(
+            (
+                (any::<u16>(), any::<u16>(), 0u64..40_000, any::<bool>()),
+                prop_oneof![4 => Just(false), 1 => Just(true)],
+                prop_oneof![5 => Just(false), 1 => Just(true)],
+            ),
+            0..5,
+        ),
         any::<u8>(),
+        prop_oneof![3 => Just(None), 1 => prop::sample::select(VIA_OVERRIDES.to_vec()).prop_map(|s| Some(s.to_string()))],
     )
-        .prop_map(|(invite, reliable, dsel, (psel, prnd, puse), tsel, raw, rng)| {
+        .prop_map(|(invite, reliable, dsel, (psel, prnd, puse), tsel, raw, rng, via_host_port)| {
             let send_delay = SEND_DELAYS[pick_idx(dsel, SEND_DELAYS.len())];
-            let first_poll = if puse { prnd } else { FIRST_POLLS[pick_idx(psel, FIRST_POLLS.len())] };
+            let mut first_poll = if puse { prnd } else { FIRST_POLLS[pick_idx(psel, FIRST_POLLS.len())] };
+            // the deadline counts from the end of the first send: a first receive() exactly on it is a tie
+            if first_poll == TIMEOUT + send_delay {
+                first_poll += 1;
+            }
             let thinks = tsel.into_iter().map(|s| THINKS[pick_idx(s, THINKS.len())]).collect();
             let mut grid = first_time_grid(invite);
             grid.extend([3, 10, 40, 60, first_poll.saturating_sub(1).max(1), first_poll + 1, first_poll + 501]);
             grid.sort();
             let mut responses = vec![];
             let mut t = 0u64;
-            for (i, (tsel, csel, rnd, use_rnd)) in raw.into_iter().enumerate() {
+            for (i, ((tsel, csel, rnd, use_rnd), received, other_source)) in raw.into_iter().enumerate() {
                 if i == 0 {
                     t = if use_rnd { rnd } else { grid[pick_idx(tsel, grid.len())] };
                 } else {
@@ -726,9 +909,9 @@ fn pacing_strategy() -> BoxedStrategy<PCase> {
                 if t + 2 >= TIMEOUT && t <= TIMEOUT + 2 * send_delay + 2 {
                     t = TIMEOUT + 2 * send_delay + 3;
                 }
-                responses.push(Resp { t_ms: t, code: CODES[pick_idx(csel, CODES.len())] });
+                responses.push(Resp { t_ms: t, code: CODES[pick_idx(csel, CODES.len())], received, other_source });
             }
-            PCase { invite, reliable, send_delay, first_poll, thinks, responses, rng }
+            PCase { invite, reliable, send_delay, first_poll, thinks, responses, rng, via_host_port }
         })
         .boxed()
 }
@@ -737,9 +920,9 @@ fn pacing_grid(_tier: Tier) -> Vec<PCase> {
     let mut out = vec![];
     for invite in [false, true] {
         for &send_delay in &[0u64, 50] {
-            for &first_poll in &[0u64, 700, 10_000] {
+            for &first_poll in &[0u64, 700, 10_000, 33_000] {
                 // nothing arrives
-                out.push(PCase { invite, reliable: false, send_delay, first_poll, thinks: vec![], responses: vec![], rng: 0 });
+                out.push(PCase { invite, reliable: false, send_delay, first_poll, thinks: vec![], responses: vec![], rng: 0, via_host_port: None });
                 for &code in &[100u16, 180, 200, 404] {
                     for &t in &[10u64, 600, 9_000, 10_001, 12_000] {
                         out.push(PCase {
@@ -748,8 +931,9 @@ fn pacing_grid(_tier: Tier) -> Vec<PCase> {
                             send_delay,
                             first_poll,
                             thinks: vec![0, 600, 33_000],
-                            responses: vec![Resp { t_ms: t, code }, Resp { t_ms: t + 700, code: 200 }, Resp { t_ms: t + 20_000, code: 200 }],
+                            responses: vec![Resp::plain(t, code), Resp::plain(t + 700, 200), Resp::plain(t + 20_000, 200)],
                             rng: 1,
+                            via_host_port: None,
                         });
                         out.push(PCase {
                             invite,
@@ -757,8 +941,9 @@ fn pacing_grid(_tier: Tier) -> Vec<PCase> {
                             send_delay,
                             first_poll,
                             thinks: vec![33_000, 0],
-                            responses: vec![Resp { t_ms: t, code }, Resp { t_ms: t + 1_000, code: 200 }],
+                            responses: vec![Resp::plain(t, code), Resp::plain(t + 1_000, 200)],
                             rng: 2,
+                            via_host_port: None,
                         });
                     }
                 }
@@ -799,7 +984,10 @@ fn run_paced(case: &PCase) -> Paced {
             let send_done = send_done.clone();
             let case = case.clone();
             tokio::spawn(async move {
-                let mut target = TargetTransportInfo { via_host_port: None, transport: Some((tp, peer)) };
+                let mut target = TargetTransportInfo {
+                    via_host_port: case.via_host_port.as_deref().and_then(host_port_of),
+                    transport: Some((tp, peer)),
+                };
                 let mut thinks = case.thinks.clone().into_iter();
                 if case.invite {
                     let mut tsx = match endpoint.send_invite(request, &mut target).await {
@@ -869,13 +1057,17 @@ fn run_paced(case: &PCase) -> Paced {
         for (i, r) in case.responses.iter().enumerate() {
             clock.until(r.t_ms).await;
             if let Some(req) = &first_request {
-                let bytes = response_text(
+                let mut bytes = response_text(
                     req,
                     r.code,
                     if r.code > 100 { Some("peertag") } else { None },
                     &[format!("X-Seq: m{i}"), "Contact: <sip:bob@192.0.2.1>".to_string()],
                 );
-                inject(&endpoint, &tp, peer, &bytes);
+                if r.received {
+                    bytes = add_received(bytes);
+                }
+                let source = if r.other_source { OTHER_SOURCE.parse().unwrap() } else { peer };
+                inject(&endpoint, &tp, source, &bytes);
             }
             settle().await;
         }
@@ -916,6 +1108,20 @@ fn pacing_check(case: &PCase, out: &mut CaseOut) {
     }
     if r0.map_or(false, |t| t < case.first_poll) {
         out.class("response arrives before the first receive()");
+    }
+    if case.first_poll > TIMEOUT {
+        out.class("first receive() only after 64*T1");
+        if r0.map_or(false, |t| t < TIMEOUT) {
+            out.class("response arrived in time, first receive() only after 64*T1");
+        } else if r0.map_or(false, |t| t <= case.first_poll + slack) {
+            out.class("first response after 64*T1 but before the first receive() (results not asserted)");
+        }
+    }
+    if case.via_host_port.is_some() {
+        out.class("Via sent-by overridden (TargetTransportInfo::via_host_port)");
+    }
+    if case.responses.iter().any(|r| r.received || r.other_source) {
+        out.class("response with received= in the top Via / from another source address");
     }
     if r0.map_or(true, |t| t > case.first_poll + T1) && case.first_poll > T1 && !case.reliable {
         out.class("retransmission deadlines passed before the first receive()");
@@ -980,7 +1186,12 @@ fn pacing_check(case: &PCase, out: &mut CaseOut) {
     let mut end: Option<&'static str> = None; // how the transaction must end, if asserted
     let mut first_2xx: Option<usize> = None;
     let mut truncated = false; // expectations stop here (un-asserted territory follows)
-    if r0.map_or(true, |t| t > TIMEOUT) {
+    // a first response that arrives after 64*T1 but before the caller's first receive() could have reported
+    // the timeout: whether the caller then sees the timeout or the (late) response is not fixed by the statement
+    let late_unseen = r0.map_or(false, |t| t > TIMEOUT && t <= case.first_poll + slack);
+    if late_unseen {
+        truncated = true;
+    } else if r0.map_or(true, |t| t > TIMEOUT) {
         end = Some("timeout");
     } else {
         for (i, r) in case.responses.iter().enumerate() {
@@ -1060,11 +1271,11 @@ fn pacing_check(case: &PCase, out: &mut CaseOut) {
             }
         }
     }
-    if bad.is_none() && !truncated {
+    if bad.is_none() {
         // everything mandatory must have come out before the end
         if let Some(k) = (ai..n).find(|k| need[*k] == Need::Must) {
             bad = Some(("response-lost".into(), format!("response m{k} (arrived at {} ms) was never handed to the caller; transaction ended with {ended:?}", case.responses[k].t_ms)));
-        } else {
+        } else if !truncated {
             match (end, &ended) {
                 (Some("timeout"), Some((t, Res::Err(m)))) if m.contains("timed out") => {
                     if *t < TIMEOUT || *t > TIMEOUT.max(ready) + slack {
@@ -1103,13 +1314,15 @@ pub fn property() -> Property {
     Property {
         fuzz: vec![],
         id: "C05",
-        rule: "cases = (INVITE|non-INVITE) x (reliable|unreliable) x scripted response arrivals (time, status) under a paused clock; grid sub-check enumerates first-response instants that bracket every timer edge (schedule instant +-1 ms, 64*T1 +-1 ms) x status class; random sub-check adds 0..4 further responses (duplicates, late finals) at offsets around T4 and 64*T1. Non-trivial = at least one retransmission observed, or a response within 1 ms of a timer edge, or two final responses; distinct by hash of the whole case.",
+        rule: "cases = (INVITE|non-INVITE) x (reliable|unreliable) x Via sent-by (transport's own | TargetTransportInfo::via_host_port override from a pool of 6 shapes) x scripted response arrivals (time, status, top Via echoed verbatim | with ;received=, packet source = request destination | another address) under a paused clock; grid sub-check enumerates first-response instants that bracket every timer edge (schedule instant +-1 ms, 64*T1 +-1 ms) x status class x {own Via, 2 overrides}; random sub-check adds 0..4 further responses (duplicates, late finals) at offsets around T4 and 64*T1. pacing sub-checks: send stays pending 0/5/50/400 ms x first receive() at 0..29 s or only after 64*T1 (32.001..80 s) x think time after each result x the same response histories. Non-trivial = at least one retransmission observed, or a response within 1 ms of a timer edge, or two final responses (pacing: any delay configured); distinct by hash of the whole case.",
         assumptions: vec![
-            "timers run on tokio's paused clock (hook H2); sends on the mock transport complete instantly",
-            "responses arriving exactly at a timer instant are excluded (tie is a don't-care)",
+            "timers run on tokio's paused clock (hook H2); sends on the mock transport complete instantly (grid/random) or after the configured delay (pacing)",
+            "responses arriving exactly at a timer instant are excluded (tie is a don't-care); pacing: also a first receive() exactly on the deadline",
             "non-INVITE retransmission while in Proceeding and the Proceeding timeout are not asserted (statement is silent)",
+            "a response belongs to the transaction by top-Via branch + CSeq method (RFC 3261 17.1.3): neither the Via sent-by text, added Via parameters nor the packet source change what is expected",
+            "pacing: a first response arriving after 64*T1 but before the caller's first receive() leaves the results unasserted; a response that arrived before 64*T1 must be handed out however late the caller asks",
         ],
-        explanation: "grid sub-check is exhaustive over the stated finite grid; random sub-check samples response tails",
+        explanation: "grid sub-checks are exhaustive over the stated finite grids; random / pacing sub-checks sample response tails, Via and delivery shapes, pacing parameters",
         subs: vec![
             enum_sub("grid", grid_cases, check),
             prop_sub("random", strategy, 2500, 60000, check),
